@@ -33,6 +33,12 @@ UNITS['autogen_recursive'] = autogen_unit('recursive')
 for _l in ('dex', 'small', 'recursive_with_poseidon', 'starknet'):
     UNITS['autogen_' + _l] = autogen_unit(_l)
 
+LIGHT_LAYOUTS = ('dex', 'dynamic', 'recursive_with_poseidon', 'small', 'starknet', 'starknet_with_keccak')
+for _l in LIGHT_LAYOUTS:
+    UNITS['layout_' + _l] = dict(fragments=PRE + T('lemmas.rs', 'numth.rs', 'transcript.rs', 'pow.rs', 'commitment.rs', 'fri.rs', 'air.rs'),
+                                 features={'std', 'keccak_160_lsb', 'keccak', 'stone5', 'light_' + _l}, threads=4,
+                                 only_modules=['swiftness_air::layout::' + _l])
+
 # property -> units per tier, claim text for the manifest
 PROPS = {
     'C01': dict(quick=['core'], thorough=['core'],
@@ -93,6 +99,11 @@ PROPS = {
                 note='That "h^(2^k)=1 and h^(2^j)!=1 for all j<k" characterises order 2^k is textbook and stated, not mechanised.'),
 }
 
+_LIGHT = ['layout_' + _l for _l in LIGHT_LAYOUTS]
+PROPS['C08']['quick'] = ['core'] + _LIGHT
+PROPS['C08']['thorough'] = ['core'] + _LIGHT
+PROPS['C01']['thorough'] = ['core'] + _LIGHT
+PROPS['C02']['thorough'] = ['core'] + _LIGHT
 PROPS['C16'] = dict(quick=['core', 'autogen_recursive'], thorough=['core', 'autogen_recursive'],
     claim='For each layout covered, the UNCHANGED bodies of the autogenerated composition and DEEP evaluators type-check with the coefficient vector retyped to an abstract Coeff (usable only as one factor of a product with a field element) and the result retyped to a linear form, and the ghost contract proves every coefficient position 0..N-1 is used exactly once, in order, with no constant part; powers_array is proved to return alpha^i, and stark_commit to pass N_CONSTRAINTS resp. MASK_SIZE+DEGREE of them. Index obligations show the evaluators read exactly mask/oods positions within the checked lengths.',
     technique='typing + ghost-state contract (lo, hi, count, czero) on eval_composition_polynomial_inner / eval_oods_polynomial_inner extracted with two signature-level rewrites; functional postcondition on powers_array',
